@@ -1034,6 +1034,9 @@ func processInterfaceValue(fset *token.FileSet, info *types.Info, call *ast.Call
 		return nil, notePosition(fset.Position(call.Pos()), fmt.Errorf("first argument to InterfaceValue must be a pointer to an interface type; found %s", types.TypeString(ifaceArgType, nil)))
 	}
 	provided := info.TypeOf(call.Args[1])
+	if b, ok := provided.(*types.Basic); ok && b.Kind() == types.UntypedNil {
+		return nil, notePosition(fset.Position(call.Pos()), errors.New("second argument to InterfaceValue must not be untyped nil"))
+	}
 	if !types.Implements(provided, methodSet) {
 		return nil, notePosition(fset.Position(call.Pos()), fmt.Errorf("%s does not implement %s", types.TypeString(provided, nil), types.TypeString(iface, nil)))
 	}
